@@ -85,6 +85,8 @@ class Verifier(CallMixin, EvalMixin, ExecMixin, SpecMixin, Base):
     def check_return(self, o):
         st = o.st
         names = self.names_post(st)
+        if self.con.stop_at:
+            return  # slice contract: the postconditions are stated at the cut point; earlier returns are outside the slice
         for cl in self.con.ensures:
             g = self.spec_bool(cl, st, names, extra={"result": o.val})
             self.oblige(st, g, "post", None, cl)
